@@ -4,6 +4,7 @@ import (
 	"fmt"
 	"net/url"
 	"sort"
+	"strconv"
 	"strings"
 
 	"pgregory.net/rapid"
@@ -22,6 +23,7 @@ type listCase struct {
 	Endpoint int        `json:"endpoint"` // index into listEndpoints
 	Name     string     `json:"name"`     // label name of the values routes
 	Values   []evid.Str `json:"values"`
+	Bulk     Bulk       `json:"bulk"`
 }
 
 var listEndpoints = []string{
@@ -52,6 +54,7 @@ func genList(rt *rapid.T) listCase {
 		Endpoint: rapid.IntRange(0, len(listEndpoints)-1).Draw(rt, "endpoint"),
 		Name:     rapid.StringMatching(`[a-zA-Z_][a-zA-Z0-9_]{0,6}`).Draw(rt, "name"),
 		Values:   genDistinct(rt, 8, true),
+		Bulk:     GenBulk(rt),
 	}
 }
 
@@ -97,6 +100,11 @@ func predList(c listCase, o *evid.Obs) error {
 	if strings.Contains(target, "%s") {
 		target = fmt.Sprintf(target, url.PathEscape(c.Name))
 	}
+	if c.Bulk.N < 0 || c.Bulk.N > 50000 || c.Bulk.Len < 0 || c.Bulk.Len > 100000 {
+		o.Discard("bad-bulk")
+		return nil
+	}
+	c.Values = append(append([]evid.Str(nil), c.Values...), c.Bulk.Strs()...)
 	rows := make([][]any, len(c.Values))
 	for i, v := range c.Values {
 		rows[i] = []any{string(v)}
@@ -105,7 +113,7 @@ func predList(c listCase, o *evid.Obs) error {
 	if len(stmts) != 1 {
 		return fmt.Errorf("harness: expected one statement, got %d", len(stmts))
 	}
-	o.Tag(fmt.Sprintf("endpoint:%d", c.Endpoint), "rows:"+bucket(len(c.Values)))
+	o.Tag(fmt.Sprintf("endpoint:%d", c.Endpoint), "rows:"+bucket(len(c.Values)), sizeClass(len(resp.Body)))
 	if anyEscape(c.Values) {
 		o.Tag("needs-escape")
 		o.NonTrivial()
@@ -144,6 +152,7 @@ type seriesCase struct {
 	Prom   bool   `json:"prom"`
 	Raw    bool   `json:"raw"` // stored documents written by the byte-transparent encoder
 	Series [][]KV `json:"series"`
+	Bulk   Bulk   `json:"bulk"`
 }
 
 func genSeries(rt *rapid.T) seriesCase {
@@ -158,6 +167,7 @@ func genSeries(rt *rapid.T) seriesCase {
 		keys[mapKey(normMap(l))] = true
 		c.Series = append(c.Series, l)
 	}
+	c.Bulk = GenBulk(rt)
 	return c
 }
 
@@ -184,6 +194,14 @@ type seriesDoc struct {
 }
 
 func predSeries(c seriesCase, o *evid.Obs) error {
+	if c.Bulk.N < 0 || c.Bulk.N > 50000 || c.Bulk.Len < 0 || c.Bulk.Len > 100000 {
+		o.Discard("bad-bulk")
+		return nil
+	}
+	c.Series = append([][]KV(nil), c.Series...)
+	for i := 0; i < c.Bulk.N; i++ {
+		c.Series = append(c.Series, []KV{{K: "__name__", V: "bulk"}, {K: "c15_bulk_i", V: evid.Str(strconv.Itoa(i))}, {K: "pad", V: evid.Str(c.Bulk.Elem(i))}})
+	}
 	rows := make([][]any, len(c.Series))
 	esc := false
 	for i, l := range c.Series {
@@ -198,7 +216,7 @@ func predSeries(c seriesCase, o *evid.Obs) error {
 	if len(stmts) != 1 {
 		return fmt.Errorf("harness: expected one statement, got %d", len(stmts))
 	}
-	o.Tag(fmt.Sprintf("prom:%v", c.Prom), fmt.Sprintf("raw:%v", c.Raw), "rows:"+bucket(len(c.Series)))
+	o.Tag(fmt.Sprintf("prom:%v", c.Prom), fmt.Sprintf("raw:%v", c.Raw), "rows:"+bucket(len(c.Series)), sizeClass(len(resp.Body)))
 	if esc {
 		o.Tag("needs-escape")
 		o.NonTrivial()
